@@ -25,6 +25,7 @@ func (a *apiTrack) call(f func()) {
 
 type probeStats struct {
 	sends, contended, underLock int64
+	errSends                    int64 // sends that come from sendError (recognised on the call stack)
 	points                      sync.Map // name -> *int64
 }
 
@@ -95,7 +96,11 @@ func installProbeHooks(a *apiTrack, st *probeStats, seed int64, yield bool) {
 		},
 		Send: func(lockFree func() bool) {
 			atomic.AddInt64(&st.sends, 1)
-			if atomic.LoadInt32(&gateErrorSends) == 1 && callerIs("sendError") {
+			isErr := callerIs("sendError")
+			if isErr {
+				atomic.AddInt64(&st.errSends, 1)
+			}
+			if atomic.LoadInt32(&gateErrorSends) == 1 && isErr {
 				// requested by a case: whoever sends an ERROR is held right before its select until the case
 				// lets go (a place where the scheduler may leave the sender for any length of time)
 				if g, _ := sendGate.Load().(*errGate); g != nil {
